@@ -18,9 +18,12 @@ def higher(x, q, fill=True):
 
 
 def closest(x, q):
-    """nearest element, ties to the lower one; returns (index, alt) where alt is a second
-    admissible index when the two exact distances differ by less than 4 ulp of the operands
-    (the implementation subtracts in floating point) or None."""
+    """nearest element by exact distance, ties to the lower one; returns (index, alt).
+
+    alt is a second admissible index or None: an implementation that subtracts in IEEE arithmetic
+    compares the two correctly rounded distances fl(q - lo) and fl(hi - q); where that comparison
+    disagrees with the exact one (only possible when the exact distances differ by less than the
+    rounding of the subtractions) its answer is accepted as well.  Nothing else is."""
     i = bisect.bisect_left(x, q)
     if i == 0:
         return 0, None
@@ -30,10 +33,5 @@ def closest(x, q):
     dl = F(q) - F(lo)
     dh = F(hi) - F(q)
     idx = i - 1 if dl <= dh else i
-    alt = None
-    if dl != dh:
-        import math
-        u = 4 * max(math.ulp(float(abs(hi))), math.ulp(float(abs(lo))), math.ulp(float(abs(q))))
-        if abs(dl - dh) < F(u):
-            alt = i if idx == i - 1 else i - 1
-    return idx, alt
+    fidx = i - 1 if (float(q) - float(lo)) <= (float(hi) - float(q)) else i
+    return idx, (fidx if fidx != idx else None)
